@@ -10,9 +10,10 @@
        the cell referenced by an instance of that same cell;
      - no pin is on two wires (nor twice on one);
      - the top instance (if any) references a cell of the result.
-   [all_referenced n]: every instance has a reference. The code accepts "(instance n)" without
-   viewRef (finding C05-K14), so this part holds only for documents without such instances.
-   [wf_file n] = both. *)
+   [all_referenced n]: every instance has a reference (an "(instance n)" without viewRef is
+   refused by the reader).
+   [ports_nonempty n]: every port has at least one pin (an array of size < 1 is refused).
+   [wf_file n] = all three; it holds of every result (Proofs/EdifFileWf.v elab_file_wf). *)
 From Coq Require Import List NArith Bool.
 From SV Require Import Base.Base Fmt.EdifLex Fmt.EdifCable Fmt.EdifNets Fmt.EdifFile.
 Import ListNotations.
@@ -60,9 +61,12 @@ Record wf_core (n : nvfile) : Prop := mk_wf_core {
 Definition all_referenced (n : nvfile) : Prop :=
   forall L C I, In L (nf_libs n) -> In C (li_cells L) -> In I (ce_insts C) -> in_ref I <> None.
 
-Definition wf_file (n : nvfile) : Prop := wf_core n /\ all_referenced n.
+Definition ports_nonempty (n : nvfile) : Prop :=
+  forall L C P, In L (nf_libs n) -> In C (li_cells L) -> In P (ce_ports C) -> (1 <= po_width P)%N.
 
-(* documents without an instance that lacks its viewRef: decided on the result *)
+Definition wf_file (n : nvfile) : Prop := wf_core n /\ all_referenced n /\ ports_nonempty n.
+
+(* [all_referenced] decided on the result *)
 Definition all_referencedb (n : nvfile) : bool :=
   forallb (fun L => forallb (fun C => forallb (fun I => match in_ref I with Some _ => true | None => false end)
                                               (ce_insts C)) (li_cells L)) (nf_libs n).
